@@ -44,6 +44,14 @@ RLIMIT_RE = re.compile(r"[Rr]esource limit|rlimit|timed out|time limit")
 UNSUPPORTED_RE = re.compile(r"not supported|unsupported|does not yet support|not yet supported|is not allowed|cannot use|disallowed|must be|Verus does not|verus! macro|expected one of")
 
 
+def modpath(rel):
+    """semantic/type_definition/mod.rs -> semantic::type_definition ; semantic/module.rs -> semantic::module"""
+    r = rel[:-3]
+    if r.endswith("/mod"):
+        r = r[:-4]
+    return r.replace("/", "::")
+
+
 def sh(cmd, **kw):
     return subprocess.run(cmd, capture_output=True, text=True, **kw)
 
@@ -352,7 +360,7 @@ def unit_verus_name(u):
     m = _re.match(r"^<(.+) for (.+)>::(\w+)$", q)
     if m:
         q = "%s::%s" % (m.group(2), m.group(3))
-    mod = u["file"][:-3].replace("/mod", "").replace("/", "::")
+    mod = modpath(u["file"])
     return "pyxis::%s::%s" % (mod, q)
 
 
